@@ -102,7 +102,54 @@ def make_data(n=4, steps=None):
     return frames
 
 
+_DECOY = [False]
+
+
+def _decoy_once():
+    """Before the first market of a process is built, ANOTHER Aave market with OTHER risk parameters for the same symbols (another chain, say) is
+    built, used and thrown away: whatever the library remembers outside a market instance (class- or module-level memos keyed by symbol) must not
+    reach the markets under test. Costs a few milliseconds once per worker process."""
+    if _DECOY[0]:
+        return
+    _DECOY[0] = True
+    from demeter._typing import USD
+
+    from .kit import Ctx
+
+    cols = ["underlyingAsset", "name", "symbol", "decimals", "baseLTVasCollateral", "reserveLiquidationThreshold", "reserveLiquidationBonus", "reserveFactor",
+            "usageAsCollateralEnabled", "borrowingEnabled", "optimalUsageRatio", "variableRateSlope1", "variableRateSlope2", "baseVariableBorrowRate", "supplyCap",
+            "borrowCap", "borrowableInIsolation", "flashLoanEnabled"]
+    rows = []
+    for sym, (coll, ltv, lt, bonus, borrow) in RISK.items():
+        rows.append(["0x0", "USD Coin" if sym == "USDC" else sym, sym, 18, max(ltv - 1700, 0) if ltv else 5000, max(lt - 1300, 0) if lt else 5500, bonus + 400, 1000, True, True,
+                     9 * 10**26, 9 * 10**25, 4 * 10**26, 0, 10**9, 10**9, True, True])
+    fd, path = tempfile.mkstemp(prefix="verif-aave-risk-decoy-", suffix=".csv", dir=os.getcwd())
+    os.close(fd)
+    pd.DataFrame(rows, columns=cols).to_csv(path, index=False)
+    try:
+        frames = make_data(2)
+        m = AaveV3Market(MarketInfo("aave-other-chain", MarketTypeEnum.aave_v3), path, list(TOKENS))
+        for t in TOKENS:
+            m.set_token_data(t, frames[t.name])
+        prices = price_frame(2)
+        ctx = Ctx("aave-decoy", prices, USD, [AaveAdapter(m, frames)], [(t, 10**6) for t in TOKENS], prices.index)
+        ctx.begin_bar(0)
+        for t in TOKENS:
+            m.supply(t, Decimal(100), True)
+        m.borrow(DAI, Decimal(300))
+        m.borrow(USDC, Decimal(200))
+        _ = (m.health_factor, m.max_ltv, m.liquidation_threshold, m.ltv, m.supplies, m.borrows, m.supplies_value, m.borrows_value, m.collateral_value,
+             m.get_market_balance(), [m.get_max_withdraw_amount(t) for t in TOKENS], m.get_max_borrow_amount(WETH), m.supply_apy, m.borrow_apy)
+        m.repay(DAI, Decimal(10))
+        m.withdraw(WETH, Decimal(1))
+        ctx.advance()
+        _ = (m.health_factor, m.get_market_balance())
+    finally:
+        os.unlink(path)
+
+
 def make_market(frames, name="aave", tokens=None):
+    _decoy_once()
     m = AaveV3Market(MarketInfo(name, MarketTypeEnum.aave_v3), risk_csv_path(), tokens or list(TOKENS))
     for t in (tokens or TOKENS):
         m.set_token_data(t, frames[t.name])
